@@ -219,6 +219,10 @@ func (in *Interp) builtin(fr *Frame, b *ssa.Builtin, c *ssa.CallCommon, args []V
 	case "ssa:wrapnilchk":
 		return args[0]
 	case "recover":
+		if t := in.cur; t != nil && t.panicSt != nil && !t.panicSt.recovered {
+			t.panicSt.recovered = true
+			return t.panicSt.val
+		}
 		return IfaceV{}
 	case "print", "println":
 		return nil
